@@ -56,8 +56,26 @@ func ruleR05a(c *Check, rule string) {
 	fn := ex.ExecMethod
 	fname := c.P.FuncName(fn)
 	completes := callsToFn(c, fn, ex.Complete)
-	cmds := callsToFn(c, fn, ex.ExecCommand)
-	checks := callsToFn(c, fn, ex.OutputChecks)
+	// the command (or the checks) may run inside a helper of the executing method that hands its error on
+	cmds, leaks := liftedSites(c, fn, func(s ssa.CallInstruction) bool {
+		for _, f := range c.G.CalleesOf(s) {
+			if f == ex.ExecCommand {
+				return true
+			}
+		}
+		return false
+	}, 0)
+	checks, leaks2 := liftedSites(c, fn, func(s ssa.CallInstruction) bool {
+		for _, f := range c.G.CalleesOf(s) {
+			if f == ex.OutputChecks {
+				return true
+			}
+		}
+		return false
+	}, 0)
+	for _, l := range append(leaks, leaks2...) {
+		c.Bad(rule, "complete-after-command/"+fname+"/helper", l, "-")
+	}
 	if len(completes) == 0 || len(cmds) == 0 {
 		c.Unknown(rule, "complete-after-command/"+fname, "completion or command call not found in the executing method", "-")
 		return
